@@ -254,6 +254,48 @@ func skeleton(p *pkgFiles) []caseFacts {
 	return res
 }
 
+// what each state of BasicParser copies from the base: (case label, "url.x = base.y") in source order
+func baseCopies(p *pkgFiles) []string {
+	var res []string
+	p.funcs(func(file string, fd *ast.FuncDecl) {
+		if fd.Name.Name != "BasicParser" {
+			return
+		}
+		ast.Inspect(fd.Body, func(n ast.Node) bool {
+			sw, ok := n.(*ast.SwitchStmt)
+			if !ok {
+				return true
+			}
+			if id, ok := sw.Tag.(*ast.Ident); !ok || id.Name != "state" {
+				return true
+			}
+			for _, st := range sw.Body.List {
+				cc := st.(*ast.CaseClause)
+				label := ""
+				if len(cc.List) > 0 {
+					label = exprStr(cc.List[0])
+				}
+				var copies []string
+				for _, b := range cc.Body {
+					ast.Inspect(b, func(m ast.Node) bool {
+						if as, ok := m.(*ast.AssignStmt); ok && len(as.Lhs) == 1 && len(as.Rhs) == 1 {
+							if rootIdent(as.Rhs[0]) == "base" && rootIdent(as.Lhs[0]) == "url" {
+								copies = append(copies, exprStr(as.Lhs[0])+" = "+exprStr(as.Rhs[0]))
+							}
+						}
+						return true
+					})
+				}
+				if len(copies) > 0 {
+					res = append(res, fmt.Sprintf("(%s, %s)", leanStr(label), leanStrList(copies)))
+				}
+			}
+			return false
+		})
+	})
+	return res
+}
+
 // ---- option writes -----------------------------------------------------------------------------------------
 
 func optionWrites(p *pkgFiles, recvNames map[string]bool) []string {
@@ -674,6 +716,7 @@ func factsCommand(args []string) bool {
 		sk = append(sk, fmt.Sprintf("(%s, %s, %s)", leanStrList(c.labels), leanStrList(c.targets), leanStrList(c.cursor)))
 	}
 	w("skeleton", "List (List String × List String × List String)", leanList(sk))
+	w("baseCopies", "List (String × List String)", leanList(baseCopies(urlPkg)))
 	w("parserOptionWrites", "List (String × List String)", leanList(optionWrites(urlPkg, map[string]bool{"o": true})))
 	w("canonOptionWrites", "List (String × List String)", leanList(optionWrites(canonPkg, map[string]bool{"p": true})))
 	w("profileOptions", "List (String × List String)", leanList(profileOptions(canonPkg)))
